@@ -302,3 +302,7 @@ def run(facts, rep, tier):
     rep.rule("C17-R9", "= C05-R3: which paragraphs are block references at all is decided by model::is_ref_url (a negated disjunction of case-folded *complete* scheme prefixes): a note whose key "
              "merely starts like a scheme (`http-caching`) must still be a reference, or squash never expands it.")
     c05.rule_r3(facts, rep, "C17-R9")
+    rep.rule("C17-R10", "= C20-R2: the squashed tree is written back through the tree -> graph copier; every node it creates gets (prev = cursor, id = fresh id) and all kinds link through the same "
+             "helper - a rule or table in an expanded note must neither vanish nor make the export loop.")
+    from . import c20 as _c20
+    _c20.rule_r2(facts, rep, "C17-R10")
